@@ -75,6 +75,16 @@ CHECKS = {
         note=TB + "; same as C04.",
         technique="TLA+ spec + TLC model checking; TLC-generated behaviours replayed on the real design; TLC trace validation",
         design="5 (C04/C05), appendix A"),
+    "C06": dict(
+        text=("TLC model-checks specs/CsrDecoder_MC.tla (every set and order of <=3 aligned windows, every "
+              "input vector: one-hot strobes, ownership = emitted pattern, nobody when unassigned) and "
+              "specs/CsrTree_MC.tla (decoder over two multiplexer specifications in lock-step with the flat "
+              "multiplexer specification); every exported vector is applied to the real csr.Decoder; random "
+              "real trees of decoders over multiplexers are driven at the root and validated by TLC against "
+              "the flat CsrMux specification laid out by the root memory map's all_resources()."),
+        note=TB + "; subordinate read data is constrained only while at most one subordinate answers (CSR zero-when-idle rule).",
+        technique="TLA+ spec + TLC model checking; exported vectors replayed on the real design; TLC trace validation of trees against the flat spec",
+        design="5 (C06)"),
 }
 
 PENDING = "check not built yet in this round; see DESIGN.md section 13 for the build order"
